@@ -19,6 +19,7 @@ func init() {
 			`R16.3 in Validate each select case that receives a result re-puts one value on the same channel and closes 'cancelled', and the shutdown sequence close(fileIndices) -> receive worker result -> close(Wounds) -> receive consumer result dominates the final return in that order; ` +
 			`R16.4 the per-file relay and aggregation goroutines leave their range loops only when the channel is closed and then always signal completion, and BeforeClose closes before it waits; ` +
 			`R16.6 'cancelled' is closed only inside those result cases; R16.5 every WoundsConsumer.Do in the module watches ctx.Done(), and the consumer installed for FailFast never returns nil from the cancellation case. ` +
+			`R16.7 every send on the bounded Wounds channel in Validate comes after the go statement of the consumer; R16.8 a function of package pwr that waits (plain receive, in its body or in a deferred literal) on a channel only a goroutine it started sends on or closes has, on every path to the wait, closed a channel that goroutine receives from or cancelled a context it watches - deferred calls are ordered last-in first-out, so a cancel deferred earlier does not count, and edges taken because that context is done are not followed. ` +
 			`NOT decided: deadlock freedom over all interleavings (model checking), goroutine leaks, that 'cancelled' is closed at most once.`,
 		Assumptions: []string{
 			"channel identity is by role (the argument bound to validate's result-channel parameter, the channel the consumer goroutine sends on), resolved through go/ssa value flow",
@@ -35,6 +36,8 @@ func runC16(c *core.Ctx) {
 	c.Rule("R16.4", "relay/aggregation goroutines exit only on channel close and always signal; BeforeClose closes before waiting")
 	c.Rule("R16.6", "the cancellation channel is closed only where a worker/consumer result was received (so an early worker exit is always accompanied by a recorded error)")
 	c.Rule("R16.5", "consumers watch ctx.Done(); the fail-fast consumer never turns cancellation into nil")
+	c.Rule("R16.7", "no wound is sent before the consumer goroutine was started")
+	ruleNoJoinBeforeRelease(c, "R16.8", 3, 1, "/pwr")
 
 	validateFn := c.P.Fn("pwr", "ValidatorContext.Validate")
 	worker := c.P.Fn("pwr", "ValidatorContext.validate")
@@ -79,6 +82,7 @@ func runC16(c *core.Ctx) {
 			}
 		})
 		c.Check(started, "R16.1", core.FnName(consumerLit), "started as goroutine", consumerLit.Pos(), "go statement found", "the consumer literal is not started with go")
+		ruleConsumerStartedFirst(c)
 		doCall := firstInstr(consumerLit, isDo)
 		// a drain deferred before the Do call is the same guarantee
 		deferredDrain := false
@@ -647,4 +651,87 @@ func hasNilTestBypass(fn *ssa.Function, isCallback ipred, field string) bool {
 	return hasGuard(cb, func(g core.Guard) bool {
 		return relHolds(g, token.NEQ, isField(field), core.IsNilConst)
 	}) && len(core.Guards(cb)) == 1
+}
+
+// ruleConsumerStartedFirst is R16.7 (shared with C06: healing a target that misses more than the channel holds).
+func ruleConsumerStartedFirst(c *core.Ctx) {
+	validateFn := c.P.Fn("pwr", "ValidatorContext.Validate")
+	if validateFn == nil {
+		c.Missing("R16.7", "pwr.(*ValidatorContext).Validate", "not found")
+		return
+	}
+	vname := core.FnName(validateFn)
+	isDo := func(in ssa.Instruction) bool {
+		cl, ok := in.(ssa.CallInstruction)
+		return ok && cl.Common().IsInvoke() && cl.Common().Method.Name() == "Do" &&
+			strings.HasSuffix(core.TypeName(cl.Common().Value.Type()), "pwr.WoundsConsumer")
+	}
+	lits := findFuncLits(validateFn, func(f *ssa.Function) bool { return containsCall(f, isDo) })
+	if len(lits) != 1 {
+		c.Missing("R16.7", vname, "no single function literal invoking WoundsConsumer.Do inside Validate")
+		return
+	}
+	consumerLit := lits[0]
+	isWounds := func(v ssa.Value) bool {
+		for _, r := range chanRoots(v) {
+			if s, ok := r.(string); ok && s == "field:pwr.ValidatorContext.Wounds" {
+				return true
+			}
+		}
+		return false
+	}
+	// R16.7: Wounds is bounded; whoever sends on it before its consumer runs blocks for good once it is full.
+	// Every send on Wounds in Validate (its own, and those of the literals it calls) comes after the go statement.
+	{
+		isGoConsumer := func(in ssa.Instruction) bool {
+			g, ok := in.(*ssa.Go)
+			if !ok {
+				return false
+			}
+			for _, o := range core.Origins(g.Call.Value) {
+				if mc, ok := o.(*ssa.MakeClosure); ok && mc.Fn == consumerLit {
+					return true
+				}
+			}
+			return false
+		}
+		sendsWounds := func(f *ssa.Function) bool {
+			found := false
+			core.Instrs(f, func(x ssa.Instruction) {
+				switch y := x.(type) {
+				case *ssa.Send:
+					if isWounds(y.Chan) {
+						found = true
+					}
+				case *ssa.Select:
+					for _, st := range y.States {
+						if st.Dir == types.SendOnly && isWounds(st.Chan) {
+							found = true
+						}
+					}
+				}
+			})
+			return found
+		}
+		nS := 0
+		core.Instrs(validateFn, func(in ssa.Instruction) {
+			isSend := false
+			switch y := in.(type) {
+			case *ssa.Send:
+				isSend = isWounds(y.Chan)
+			case *ssa.Call:
+				if cal := localCallee(y); cal != nil && sendsWounds(cal) {
+					isSend = true
+				}
+			}
+			if !isSend {
+				return
+			}
+			nS++
+			p := core.FindPath(validateFn, nil, isInstr(in), isGoConsumer)
+			c.Check(p == nil, "R16.7", vname, "a wound is sent only after the consumer was started", core.InstrPos(in),
+				"every path to this send passes the go statement of the consumer literal", "Validate can send on the bounded Wounds channel before its consumer goroutine exists: once the channel is full (1024 wounds from the directory and symlink passes) the send blocks for ever").Path = c.P.PathStrings(p)
+		})
+		c.Floor("R16.7", "sends on Wounds in Validate itself", nS, 2)
+	}
 }
